@@ -107,6 +107,11 @@ func runC11(c *Ctx) bool {
 				emit(&Case{Kind: "from-root." + k, Opt: map[string]string{"op": op}, Seed: gen.New(c.Seed, 1107, uint64(idx)).Uint64()})
 			}
 		}
+		// (7) a reader that says nothing at all (its first Read blocks) while the context expires or
+		// is cancelled: the call must still return, with the context's error
+		for _, op := range c11Ops {
+			emit(&Case{Kind: "silent-reader", Opt: map[string]string{"op": op}, Seed: gen.New(c.Seed, 1110, uint64(idx)).Uint64()})
+		}
 	}
 	return true
 }
@@ -151,6 +156,7 @@ type c11Exec struct {
 	cbFailAt int // walk: callback fails at this visit (<0 never)
 	target   string
 	sched    *mon.Sched
+	onReturn func() // called as soon as the call has returned, before the leak monitor looks
 	// results
 	err   error
 	rows  int
@@ -221,6 +227,9 @@ func (e *c11Exec) run(lm *mon.LeakMonitor) {
 			e.err = gtree.OutputFromMarkdown(e.writer, e.reader, opts...)
 		}
 	}, 60*time.Second)
+	if e.onReturn != nil {
+		e.onReturn()
+	}
 	if e.guard.Returned {
 		e.leak = lm.AfterCall(base)
 	}
@@ -672,6 +681,50 @@ func evalC11(c *Ctx, cs *Case, lm *mon.LeakMonitor) {
 			}
 			if mj != nil {
 				mj.Remove()
+			}
+			if !ok {
+				recycle()
+			}
+		}
+
+	case cs.Kind == "silent-reader":
+		f, doc := c11Doc(r, r.Range(1, 6), nil, "")
+		for i := 0; i < c.Pick(3, 10); i++ {
+			ctx, cancel := context.WithCancel(context.Background())
+			if i%2 == 0 {
+				ctx, cancel = context.WithTimeout(context.Background(), time.Duration(2+r.Intn(20))*time.Millisecond)
+			} else {
+				time.AfterFunc(time.Duration(2+r.Intn(20))*time.Millisecond, cancel)
+			}
+			block := make(chan struct{})
+			e := &c11Exec{op: op, doc: []byte(doc), ctx: ctx, cbFailAt: -1, sched: mon.NewSched(mon.ProfNone, r.Uint64())}
+			e.reader = &mon.FaultReader{Doc: []byte(doc), K: -1, Block: block}
+			// once the call is back the producer "hangs up": the goroutine that sits in the caller's own
+			// Read can end (nobody can interrupt a Read; that it is still there at return is not the library's doing)
+			e.onReturn = func() { close(block) }
+			var j *mon.Jail
+			if op == "mkdir" || op == "verify" {
+				if j = newJail(f, op == "verify"); j == nil {
+					cancel()
+					return
+				}
+				e.target = j.Target
+			}
+			cs.N = []int{i}
+			cs.SetDoc(doc)
+			c.Rejournal(cs)
+			e.run(lm)
+			c.Eval(key("silent"+strconv.Itoa(i)), true)
+			c.Count("silent_reader_calls", 1)
+			det := map[string]any{"doc": trunc(doc, 400), "run": i}
+			ok := c11Judge(c, cs, e, det)
+			if e.guard.Returned && !errors.Is(e.err, ctx.Err()) {
+				det["err"] = errStr(e.err)
+				c.Violation(cs, "cancel.not-the-context-error", op, det)
+			}
+			cancel()
+			if j != nil {
+				j.Remove()
 			}
 			if !ok {
 				recycle()
